@@ -65,5 +65,6 @@ TECHNIQUE = ('Coq model of unittest protocol + zope TestResult (Run.proto, Run.r
              'predicate (Obs.c05_ok); theorems in P_C05.v; correspondence check on generated worlds, predicate evaluated on the real trace')
 LEVEL_TEXT = ('Every outcome kind and every sequence is covered by theorems over the model of one test execution (hooks bases-first, '
               'mirrored, once each — reusing the order_by_bases theorems of C10), the model is compared event-by-event with the real '
-              'runner, and c05_ok is evaluated on the real trace of every process (incl. decorator-skipped tests on Python 3.12.1).')
+              'runner, and c05_ok is evaluated on the real trace of every process (incl. decorator-skipped tests on Python 3.12.1).'
+              ' Whole-run theorems (RunBracket.v): every process trace is made of layer events and complete test blocks; hooks balanced per layer.')
 LEVEL_NOTE = 'Only CPython 3.12.1 is executed; both unittest behaviours for decorator skips are covered by the model (PDecoSkip path).'
